@@ -18,6 +18,10 @@ pub enum Verdict {
 
 pub fn compare(r: &RefOutcome, pos: &BTreeMap<Id, Pos>, o: &Outcome) -> Verdict {
     let end = r.end.clone().unwrap_or(REnd::Undecided("no end".into()));
+    // an internal failure is never the prescribed outcome, whatever the reference can say about the program
+    if matches!(o.end, End::Panic { .. } | End::Crash { .. }) {
+        return Verdict::Differ(format!("{}->{}", end_class(&end), o.end.class()), format!("the implementation ended with an internal failure: {:?}", o.end));
+    }
     if let REnd::Undecided(m) = &end {
         return Verdict::Undecided(m.clone());
     }
